@@ -58,6 +58,7 @@ Judge1(e) ==
         THEN "edge_value_differs_from_dense"
     ELSE IF ~e.same.formula THEN "integer_typed_events_not_converted_as_the_same_numbers_in_double_precision"
     ELSE IF ~e.same.evcoord THEN "origin_event_coordinate_changed"
+    ELSE IF ~e.same.evother THEN "event_coordinate_unrelated_to_this_conversion_changed_or_dropped"
     ELSE IF ~e.same.masks THEN "masks_changed"
     ELSE IF ~e.same.evmasks THEN "event_masks_changed"
     ELSE IF ~e.same.coords THEN "unrelated_coordinates_changed"
